@@ -5,14 +5,17 @@
    instant for an aware endpoint and the wall value itself for a naive one / a date.  Floats: Spec/TdFloat.v (SpecFloat binary64).
    An endpoint carries the identity of its tzinfo object (`e_obj`, 0 = None): `same_tz a b` is Python's `a.tzinfo is b.tzinfo`; NO theorem below assumes
    anything about how the two zones / objects are related (same object, same name through another object, different zones are all covered).
-   Float premises (explicit hypotheses of the *_partial theorems, NOT proved, validated on every run):
+   Float premises: explicit hypotheses of the *_partial theorems (validated on every run); they are THEOREMS (Proofs/FloatRoundTrip*.v, through Flocq's
+   correctness of binary64 division/multiplication/subtraction) and the last section of this file restates every *_partial theorem WITHOUT premise.  Those
+   statements depend on the real-number axioms of Coq's standard library that Flocq uses (listed by Print Assumptions); the *_partial ones on nothing.
+   The premises:
      float_roundtrip_exact_below_2_33 : timedelta(seconds=td.total_seconds()) == td for |td| < 2^33 s
      float_roundtrip_within_64        : the same round trip is within 64 us for |td| <= 3652061 days
      float_split_exact_on_D9 (C09), float_div_trunc_exact 60 / 3600 : int(td.total_seconds() / unit) is the truncated quotient for |td| < 2^33 s. *)
 From Coq Require Import ZArith List Bool.
 From Coq Require Import Floats.SpecFloat.
 From PV Require Import Lib.PyBase Spec.Cal Spec.Zone Spec.TdFloat Model.Duration Model.TzConvert Model.IntervalLen.
-From PV Require Import Proofs.ZoneFacts Proofs.C09Facts Proofs.C05Facts.
+From PV Require Import Proofs.ZoneFacts Proofs.C09Facts Proofs.C05Facts Proofs.FloatRoundTripC05.
 Import ListNotations.
 Open Scope Z_scope.
 
@@ -266,3 +269,71 @@ Theorem in_units_trunc_beyond_refuted :
             dur_in_seconds (i_dur i) = Ok 18000000000 /\ Z.quot 17999999999999999 1000000 = 17999999999.
 Proof. exact in_units_beyond_refuted. Qed.
 Print Assumptions in_units_trunc_beyond_refuted.
+
+
+(* ---- the float premises are THEOREMS: every *_partial statement above holds unconditionally.
+   Print Assumptions lists the standard-library axioms these proofs rest on (classical reals, as used by Flocq); nothing is assumed by this development. *)
+Theorem float_premises_hold :
+  float_roundtrip_exact_below_2_33 /\ float_roundtrip_within_64 /\ float_split_exact_on_D9 /\ float_div_trunc_exact 60 /\ float_div_trunc_exact 3600.
+Proof.
+  exact (conj float_roundtrip_exact_below_2_33_proved (conj float_roundtrip_within_64_proved
+        (conj FloatRoundTripC09.float_split_exact_on_D9_proved (conj float_div_trunc_exact_60_proved float_div_trunc_exact_3600_proved)))).
+Qed.
+Print Assumptions float_premises_hold.
+
+(* the length of an interval between two aware endpoints less than 2^33 s (272 years) apart is EXACTLY the elapsed time between their UTC instants *)
+Theorem interval_length_exact :
+  forall a b i, e_dt a = true -> e_dt b = true -> aware a = true -> aware b = true ->
+  interval_make a b false = Ok i -> Z.abs (ep_inst b - ep_inst a) < B33 ->
+  d_N (i_dur i) = ep_inst b - ep_inst a.
+Proof. exact length_exact_proved. Qed.
+Print Assumptions interval_length_exact.
+
+Theorem interval_length_exact_abs :
+  forall a b i, e_dt a = true -> e_dt b = true -> aware a = true -> aware b = true ->
+  (same_tz a b = true -> (e_W a >? e_W b) = (ep_inst a >? ep_inst b)) ->
+  interval_make a b true = Ok i -> Z.abs (ep_inst b - ep_inst a) < B33 ->
+  d_N (i_dur i) = Z.abs (ep_inst b - ep_inst a).
+Proof. exact length_exact_abs_proved. Qed.
+Print Assumptions interval_length_exact_abs.
+
+Theorem interval_length_exact_naive_date :
+  forall a b i, (e_dt a = false \/ (aware a = false /\ aware b = false)) ->
+  interval_make a b false = Ok i -> Z.abs (e_W b - e_W a) < B33 -> d_N (i_dur i) = e_W b - e_W a.
+Proof. exact length_exact_naive_date_proved. Qed.
+Print Assumptions interval_length_exact_naive_date.
+
+(* over the whole calendar (any two instants of years 1..9999) the length is within 64 us of the elapsed time *)
+Theorem interval_length_64 :
+  forall a b i, e_dt a = true -> e_dt b = true -> aware a = true -> aware b = true ->
+  interval_make a b false = Ok i -> Z.abs (ep_inst b - ep_inst a) <= SPAN_MAX ->
+  Z.abs (d_N (i_dur i) - (ep_inst b - ep_inst a)) <= 64.
+Proof. exact length_64_proved. Qed.
+Print Assumptions interval_length_64.
+
+Theorem swap_negates_length :
+  forall a b i j, e_dt a = true -> e_dt b = true -> aware a = true -> aware b = true ->
+  interval_make a b false = Ok i -> interval_make b a false = Ok j -> Z.abs (ep_inst b - ep_inst a) < B33 ->
+  d_N (i_dur j) = - d_N (i_dur i).
+Proof. exact swap_negates_length_proved. Qed.
+Print Assumptions swap_negates_length.
+
+Theorem in_seconds_minutes_hours_trunc :
+  forall a b i, e_dt a = true -> e_dt b = true -> aware a = true -> aware b = true ->
+  interval_make a b false = Ok i -> Z.abs (ep_inst b - ep_inst a) < B33 ->
+  let D := ep_inst b - ep_inst a in
+  dur_in_seconds (i_dur i) = Ok (Z.quot D 1000000) /\
+  dur_in_minutes (i_dur i) = Ok (Z.quot D 60000000) /\
+  dur_in_hours (i_dur i) = Ok (Z.quot D 3600000000).
+Proof. exact in_units_trunc_proved. Qed.
+Print Assumptions in_seconds_minutes_hours_trunc.
+
+Theorem sub_native_same_length_exact :
+  forall self o i, e_dt self = true -> aware self = true ->
+  e_native o = true -> e_dt o = true -> aware o = true -> e_canon o <> 0 ->
+  (e_fixed o = true -> exists off, e_zone o = fixed_zone off) ->
+  ~ wall_skipped (e_zone o) (sec (e_W o)) -> Z.abs (ep_inst self - ep_inst o) < B33 ->
+  (dt_sub self o = Ok i -> d_N (i_dur i) = ep_inst self - ep_inst o) /\
+  (dt_rsub self o = Ok i -> d_N (i_dur i) = ep_inst o - ep_inst self).
+Proof. exact sub_native_exact_proved. Qed.
+Print Assumptions sub_native_same_length_exact.
